@@ -3,7 +3,7 @@
    is evaluated on every produced mesh, and the discrete Green identity behind its coverage
    certificate.  Proofs: MeshCheckProofs.v (exact integer arithmetic, all meshes, all sizes). *)
 From Coq Require Import ZArith List Bool Lia.
-From XF Require Import Sums MeshCheck MeshCheckProofs.
+From XF Require Import Sums MeshCheck MeshCheckProofs MeshCheckSound.
 Import ListNotations.
 Local Open Scope Z_scope.
 
@@ -35,6 +35,70 @@ Theorem C01_accepted_mesh_is_valid : forall (M : mesh) (P : pslg) (pidx : list Z
 Proof. exact check_mesh_sound. Qed.
 Print Assumptions C01_accepted_mesh_is_valid.
 
+(* The remaining lists of an accepted report (MeshCheckSound.v). *)
+
+(* every drawn (PSLG) segment (u,v) is a chain of mesh nodes from u to v: consecutive nodes are
+   joined by an element edge (C01_chain_steps_are_element_edges) and every node lies on the
+   closed segment towards v *)
+Theorem C01_drawn_entities_are_chains_of_mesh_edges :
+  forall (M : mesh) (P : pslg) (pidx : list Z) (ppts : list pt) (pmarks : list Z),
+  report_ok (check_mesh M P pidx ppts pmarks) = true ->
+  forall u v mk, In (u, v, mk) (psegs P) ->
+  exists path, hd_error path = Some u /\ chain_ok (mX M) (nbrs_of (build_nbrs (mtris M))) v path.
+Proof. exact full_chains. Qed.
+Print Assumptions C01_drawn_entities_are_chains_of_mesh_edges.
+
+Theorem C01_chain_steps_are_element_edges : forall (n : Z) (ts : list tri) (x y : Z),
+  chk_range n ts = true -> 0 <= x -> In y (nbrs_of (build_nbrs ts) x) ->
+  In (x, y) (all_dedges ts) \/ In (y, x) (all_dedges ts).
+Proof. exact build_nbrs_spec. Qed.
+Print Assumptions C01_chain_steps_are_element_edges.
+
+(* region attributes are constant across every element edge that is not on a drawn segment:
+   together with the chains this is "each region is covered by elements of one attribute" *)
+Theorem C01_attributes_change_only_across_drawn_entities :
+  forall (M : mesh) (P : pslg) (pidx : list Z) (ppts : list pt) (pmarks : list Z),
+  report_ok (check_mesh M P pidx ppts pmarks) = true ->
+  forall i j ti tj e,
+  nth_error (mtris M) i = Some ti -> nth_error (mtris M) j = Some tj -> (i < j)%nat ->
+  In e (dedges ti) -> In (revE e) (dedges tj) ->
+  nth (Z.to_nat (Z.of_nat i)) (mattr M) 0 <> nth (Z.to_nat (Z.of_nat j)) (mattr M) 0 ->
+  on_some_segment (mX M) (psegs P) e = true.
+Proof. exact full_attributes. Qed.
+Print Assumptions C01_attributes_change_only_across_drawn_entities.
+
+Theorem C01_region_points_located :
+  forall (M : mesh) (P : pslg) (pidx : list Z) (ppts : list pt) (pmarks : list Z),
+  report_ok (check_mesh M P pidx ppts pmarks) = true ->
+  forall k p a mx, nth_error (pregions P) k = Some (p, a, mx) ->
+  exists i t, nth_error (mtris M) i = Some t /\ in_tri (mX M) t p = true /\
+              nth (Z.to_nat (Z.of_nat i)) (mattr M) 0 = a.
+Proof. exact full_regions. Qed.
+Print Assumptions C01_region_points_located.
+
+Theorem C01_holes_are_empty :
+  forall (M : mesh) (P : pslg) (pidx : list Z) (ppts : list pt) (pmarks : list Z),
+  report_ok (check_mesh M P pidx ppts pmarks) = true ->
+  forall p t, In p (pholes P) -> In t (mtris M) -> strict_in_tri (mX M) t p = false.
+Proof. exact full_holes. Qed.
+Print Assumptions C01_holes_are_empty.
+
+Theorem C01_drawn_points_are_exact_vertices :
+  forall (M : mesh) (P : pslg) (pidx : list Z) (ppts : list pt) (pmarks : list Z),
+  report_ok (check_mesh M P pidx ppts pmarks) = true ->
+  forall k p mk, In (k, (p, mk)) (combine pidx (combine ppts pmarks)) ->
+  ptget (mX M) k = p /\
+  (if 1 <? mk then nth (Z.to_nat k) (mnodemark M) 0 = mk else nth (Z.to_nat k) (mnodemark M) 0 <= 1).
+Proof. exact full_points. Qed.
+Print Assumptions C01_drawn_points_are_exact_vertices.
+
+Theorem C01_edge_markers_follow_drawn_entities :
+  forall (M : mesh) (P : pslg) (pidx : list Z) (ppts : list pt) (pmarks : list Z),
+  report_ok (check_mesh M P pidx ppts pmarks) = true ->
+  forall em, In em (medges M) -> edge_mark_bad (mX M) (psegs P) em = false.
+Proof. exact full_edge_marks. Qed.
+Print Assumptions C01_edge_markers_follow_drawn_entities.
+
 (* non-vacuity: a two-triangle square passes the core checks *)
 Example C01_square_ok :
   let X := [(0, 0); (4, 0); (4, 4); (0, 4)] in
@@ -42,3 +106,12 @@ Example C01_square_ok :
   chk_range 4 ts = true /\ chk_ccw X ts = true /\ edge_table 4 ts <> None /\
   zsum (area2 X) ts = 32.
 Proof. vm_compute. repeat split; try reflexivity. discriminate. Qed.
+
+(* non-vacuity of the full report: the two-triangle square with its four sides drawn, one region,
+   passes the whole validator *)
+Example C01_square_full_report_ok :
+  let M := mkMesh [(0, 0); (4, 0); (4, 4); (0, 4)] [0; 0; 0; 0] [(0, 1, 2); (0, 2, 3)] [1; 1]
+                  [(0, 1, -2); (1, 2, -2); (2, 3, -2); (3, 0, -2); (0, 2, 0)] in
+  let P := mkPslg 4 [(0, 1, -2); (1, 2, -2); (2, 3, -2); (3, 0, -2)] [] [((1, 2), 1, 0)] in
+  report_ok (check_mesh M P [0; 1; 2; 3] [(0, 0); (4, 0); (4, 4); (0, 4)] [0; 0; 0; 0]) = true.
+Proof. vm_compute. reflexivity. Qed.
